@@ -111,44 +111,7 @@ func runC06(c *Ctx) {
 	c.requireInstances("descriptor-last.known-publishers", 4)
 
 	// --- clause 2: create-if-absent ---------------------------------------------------------------
-	sites := enumPutSites(p, "pkg/core", "pkg/context")
-	explicitOverwrite := map[string]string{
-		"pkg/core.DeleteEntriesFromRepo": "explicit delete-files operation rewrites a file list in place (allowed by the statement)",
-	}
-	nImm := 0
-	for _, s := range sites {
-		if s.Fn.ID == "pkg/core.metaObject.writeMetadata" {
-			// wrapper: must forward both key and flag parameters unchanged
-			wsig := s.Fn.Obj.Type().(*types.Signature)
-			c.check(wsig.Params().Len() == 3 && s.Mode == "param:"+wsig.Params().At(1).Name() && s.Kind == "param:"+wsig.Params().At(0).Name(), "create-if-absent.wrapper-forwards", s.Key, p.Pos(s.Call.Pos()),
-				"writeMetadata forwards its noOverwrite and pth parameters unchanged to "+shortCallee(s.Callee),
-				"writeMetadata does not forward its parameters unchanged (mode="+s.Mode+", key="+s.Kind+"): callers' NoOverWrite is not what reaches the store")
-			continue
-		}
-		kinds := strings.Split(s.Kind, "|")
-		immutable := false
-		for _, k := range kinds {
-			if immutableKinds[k] {
-				immutable = true
-			}
-		}
-		// the key of uploadIndex/reset comes from an index iterator or a parameter fed by one
-		if s.Fn.ID == "pkg/core.fileIndex.uploadIndex" || s.Fn.ID == "pkg/core.fileIndex.reset" {
-			immutable = true
-		}
-		if !immutable {
-			continue
-		}
-		nImm++
-		if why, ok := explicitOverwrite[s.Fn.ID]; ok {
-			c.ok("create-if-absent.immutable-kinds", s.Key, p.Pos(s.Call.Pos()), "kind "+s.Kind+" written with "+s.Mode+": "+why)
-			continue
-		}
-		c.check(s.Mode == "NoOverWrite", "create-if-absent.immutable-kinds", s.Key, p.Pos(s.Call.Pos()),
-			"kind "+s.Kind+" written with constant NoOverWrite",
-			"immutable metadata kind "+s.Kind+" written with mode "+s.Mode+" instead of the constant NoOverWrite: an existing object can be replaced")
-	}
-	c.requireInstances("create-if-absent.immutable-kinds", 14)
+	checkImmutableKindsCreateIfAbsent(c)
 	c.requireInstances("create-if-absent.wrapper-forwards", 2)
 
 	// --- clause 3: readers require the descriptor -------------------------------------------------
@@ -318,4 +281,48 @@ func checkDescriptorConsulted(c *Ctx, rule string) {
 	c.check(len(bad) == 0 && nS > 0, rule, f.ID, p.Pos(f.Decl.Pos()),
 		"every success return ("+itoa(nS)+") is preceded by a Get/Has of the bundle descriptor key",
 		"downloadBundleDescriptor can return a bundle without consulting its descriptor: index files left by an interrupted upload are reported as a bundle")
+}
+
+// checkImmutableKindsCreateIfAbsent (C06, pooled): every write of an immutable metadata kind (descriptors, file lists,
+// split and diamond objects) uses the constant NoOverWrite.
+func checkImmutableKindsCreateIfAbsent(c *Ctx) {
+	p := c.P
+	sites := enumPutSites(p, "pkg/core", "pkg/context")
+	explicitOverwrite := map[string]string{
+		"pkg/core.DeleteEntriesFromRepo": "explicit delete-files operation rewrites a file list in place (allowed by the statement)",
+	}
+	nImm := 0
+	for _, s := range sites {
+		if s.Fn.ID == "pkg/core.metaObject.writeMetadata" {
+			// wrapper: must forward both key and flag parameters unchanged
+			wsig := s.Fn.Obj.Type().(*types.Signature)
+			c.check(wsig.Params().Len() == 3 && s.Mode == "param:"+wsig.Params().At(1).Name() && s.Kind == "param:"+wsig.Params().At(0).Name(), "create-if-absent.wrapper-forwards", s.Key, p.Pos(s.Call.Pos()),
+				"writeMetadata forwards its noOverwrite and pth parameters unchanged to "+shortCallee(s.Callee),
+				"writeMetadata does not forward its parameters unchanged (mode="+s.Mode+", key="+s.Kind+"): callers' NoOverWrite is not what reaches the store")
+			continue
+		}
+		kinds := strings.Split(s.Kind, "|")
+		immutable := false
+		for _, k := range kinds {
+			if immutableKinds[k] {
+				immutable = true
+			}
+		}
+		// the key of uploadIndex/reset comes from an index iterator or a parameter fed by one
+		if s.Fn.ID == "pkg/core.fileIndex.uploadIndex" || s.Fn.ID == "pkg/core.fileIndex.reset" {
+			immutable = true
+		}
+		if !immutable {
+			continue
+		}
+		nImm++
+		if why, ok := explicitOverwrite[s.Fn.ID]; ok {
+			c.ok("create-if-absent.immutable-kinds", s.Key, p.Pos(s.Call.Pos()), "kind "+s.Kind+" written with "+s.Mode+": "+why)
+			continue
+		}
+		c.check(s.Mode == "NoOverWrite", "create-if-absent.immutable-kinds", s.Key, p.Pos(s.Call.Pos()),
+			"kind "+s.Kind+" written with constant NoOverWrite",
+			"immutable metadata kind "+s.Kind+" written with mode "+s.Mode+" instead of the constant NoOverWrite: an existing object can be replaced")
+	}
+	c.requireInstances("create-if-absent.immutable-kinds", 14)
 }
